@@ -312,6 +312,8 @@ def typemap_getitem(ip, o, args, kwargs, node):
     k = args[0]
     if isinstance(k, Label):
         return Index(k.name)
+    if isinstance(k, Const) and isinstance(k.v, str):
+        raise Raised('KeyError', k.v, ip.loc(node))      # a name that is not a type of this array
     raise Unsupported('typeMap lookup of %r' % (k,), node)
 
 
@@ -337,4 +339,5 @@ def install_containers(ip, domain_transforms=True, tables=True, matrixarray=True
         ip.natives[('Domain', 'MatrixArray_to_fourier')] = _transform('Fourier', 'toF')
         ip.natives[('Domain', 'MatrixArray_to_real')] = _transform('Real', 'toR')
     ip.natives[('typemap', '__getitem__')] = typemap_getitem
+    ip.natives[('shape', '__getitem__')] = L.shape_getitem
     ip.natives[('poly1d', '__call__')] = L.poly1d_call
